@@ -35,7 +35,8 @@ PID = "C17"
 MODULES = ["Spydr.Names.Model", "Spydr.Names.ModelOld", "Spydr.Names.ModelObs", "Spydr.Names.Spec",
            "Spydr.Names.Lemmas", "Spydr.Names.LemmasKey", "Spydr.Names.LemmasPass", "Spydr.Names.Props.C17",
            # bridge to the EDIF engine's model (imports Spydr.Edif.*): C17's last clause
-           "Spydr.Names.LemmasBridge", "Spydr.Names.Props.C17Bridge", "Spydr.Names.LemmasBridgeNet", "Spydr.Names.Props.C17Export"]
+           "Spydr.Names.LemmasBridge", "Spydr.Names.Props.C17Bridge", "Spydr.Names.LemmasBridgeNet", "Spydr.Names.Props.C17Export",
+           "Spydr.Names.Props.C17ExportExample"]
 THEOREMS = [
     "Spydr.Names.makeValid_legal",
     "Spydr.Names.makeValid_fresh",
@@ -61,6 +62,8 @@ THEOREMS = [
     "Spydr.Names.Bridge.names_of_passNet",
     "Spydr.Names.Bridge.view03_passNet",
     "Spydr.Names.Bridge.export_readable",
+    "Spydr.Names.Bridge.export_readable_outside_pinned_classes",
+    "Spydr.Names.Bridge.Example3.example_export",   # non-vacuity on a netlist with 2 cells, 2 instances, a bus, scalar nets, collisions
     "Spydr.Names.Bridge.passNet_naming_clauses",
     "Spydr.Names.Bridge.bus_bit_identifier_can_be_too_long",
 ]
@@ -1614,12 +1617,12 @@ def run(ctx):
         "cables have at least one wire and a non-negative lower index; the net identifiers of a cell are read by a token scan of the written file (not through the re-read)",
     ]
     ctx.partial_notes = [
-        "last clause of C17 ('the exported file is always readable again and the re-read netlist shows the original names'): proved on the models by the bridge "
-        "export_readable (pre-pass output satisfies every naming clause of the EDIF engine's WFNet; with the residual clauses Edif.C03.edif_roundtrip_text gives a text the "
+        "last clause of C17 ('the exported file is always readable again and the re-read netlist shows the original names'): proved on the models, CONDITIONALLY, by the bridge "
+        "export_readable / export_readable_outside_pinned_classes (readable provided the three pinned name classes are avoided: bus-bit-identifier-too-long, cable-name-bracket-index, backslash-bus-cable; pre-pass output satisfies every naming clause of the EDIF engine's WFNet; with the residual clauses Edif.C03.edif_roundtrip_text gives a text the "
         "model reader accepts with the view of the original netlist). Assumed there, not delivered by the pre-pass: names of siblings different and free of double quote/CR/LF, "
         "a scalar net not named like a bus bit, a bus net not starting with a backslash, the per-wire identifier of a bus within 255 characters "
-        "(bus_bit_identifier_can_be_too_long: witness; open finding), and the structural clauses of WFNet. The real reader/writer are tied to those models by the edif engine; "
-        "this engine still runs sdn.compose + sdn.parse on every generated netlist",
+        "(bus_bit_identifier_can_be_too_long: witness; open finding), and the structural clauses of WFNet. passNet (names model) composed with composeE (edif model) is tied to sdn.compose only by the two engines' correspondence runs (names: identifiers/rename flags/name tokens/net identifiers; "
+        "edif: written text and re-read netlist), not by a single joint check; this engine still runs sdn.compose + sdn.parse on every generated netlist",
     ]
     lean.check_obligations(ctx, "Spydr/Names", MODULES, ["drv_names"], "Spydr/Names/Audit.lean", THEOREMS)
     if not os.path.exists(os.path.join(lean.LEAN, ".lake", "build", "bin", "drv_names")):
